@@ -510,21 +510,15 @@ class ExecutionState:
                         operation_id=operation_update.operation_id,
                     )
 
-        # Check if background checkpointing has failed
-        if self._checkpointing_failed.is_set():
-            # This will raise the stored BackgroundThreadError
-            self._checkpointing_failed.wait()
-
-        # Conditionally create completion event based on is_sync parameter
-        completion_event: CompletionEvent | None = (
-            CompletionEvent() if is_sync else None
-        )
-
-        # Create wrapper object for queue
-        queued_op = QueuedOperation(operation_update, completion_event)
-
-        # Enqueue the wrapper object (operation_update can be None for empty checkpoints)
-        self._checkpoint_queue.put(queued_op)
+                # Enqueue while still holding the lock, so that the order in which updates
+                # pass the validation above is the order in which they reach the backend:
+                # otherwise a child could pass the check, lose the CPU while its parent
+                # completes and enqueues, and then be recorded after the parent's completion.
+                queued_op, completion_event = self._enqueue_checkpoint(
+                    operation_update, is_sync
+                )
+        else:
+            queued_op, completion_event = self._enqueue_checkpoint(None, is_sync)
 
         # Re-check after enqueueing: the background thread may have failed between the check
         # above and the put. It sets the failure flag before draining the queues, so either it
@@ -544,6 +538,29 @@ class ExecutionState:
             completion_event.wait()
         else:
             logger.debug("Enqueued checkpoint operation for asynchronous processing")
+
+    def _enqueue_checkpoint(
+        self,
+        operation_update: OperationUpdate | None,
+        is_sync: bool,  # noqa: FBT001
+    ) -> tuple[QueuedOperation, CompletionEvent | None]:
+        """Hand one (possibly empty) checkpoint to the background thread's queue."""
+        # Check if background checkpointing has failed
+        if self._checkpointing_failed.is_set():
+            # This will raise the stored BackgroundThreadError
+            self._checkpointing_failed.wait()
+
+        # Conditionally create completion event based on is_sync parameter
+        completion_event: CompletionEvent | None = (
+            CompletionEvent() if is_sync else None
+        )
+
+        # Create wrapper object for queue
+        queued_op = QueuedOperation(operation_update, completion_event)
+
+        # Enqueue the wrapper object (operation_update can be None for empty checkpoints)
+        self._checkpoint_queue.put(queued_op)
+        return queued_op, completion_event
 
     def create_checkpoint_sync(
         self,
